@@ -608,6 +608,7 @@ def drv_misuse(doc, args, inst):
         'reshape_count': lambda: tt.reshape(r([2, 3]), [5]),
         'reshape_ttm_rows': lambda: tt.reshape(r([(2, 2), (2, 8)]), [(5, 16)]),
         'reshape_ttm_cols': lambda: tt.reshape(r([(2, 2), (2, 8)]), [(4, 15)]),
+        'reshape_ttm_second': lambda: tt.reshape(r([(2, 2), (2, 8)], [1, 1, 1]), [(2, 2), (4, 4)]),
         'reshape_ttm_swap': lambda: tt.reshape(r([(2, 2), (2, 8)], [1, 1, 1]), [(2, 2), (4, 4)]),
         'save_not_tt': lambda: tt.save(tn.randn(3), '/var/tmp/_ttvc_should_not_exist.TT'),
         'random_bad_R': lambda: tt.random([2, 3], [2, 2, 1]),
@@ -813,8 +814,22 @@ def drv_tt_svd(doc, args, inst):
         for i in range(n):
             E[i, i] = 1.0
         cases.append(E.reshape(N))
+    # engineered spectra: one dominant and several small singular values across the first bond whose two sides are both
+    # larger than 1; when singleton modes follow, several consecutive bonds see the same unfolding and may each discard
+    # part of the small values -- the sum must still stay below eps^2
+    if not M:
+        for p_ in range(1, len(N)):
+            nl, nr = int(np.prod(N[:p_])), int(np.prod(N[p_:]))
+            r_ = min(nl, nr)
+            if r_ >= 3:
+                for e0 in (eps, 0.1, 0.3):
+                    U_, _ = tn.linalg.qr(tn.randn(nl, r_, dtype=tn.float64, generator=g))
+                    V_, _ = tn.linalg.qr(tn.randn(nr, r_, dtype=tn.float64, generator=g))
+                    sv = tn.tensor([1.0] + [np.sqrt(0.45) * e0] * (r_ - 1), dtype=tn.float64)
+                    cases.append(((U_ * sv) @ V_.t()).reshape(N))
+                break
     for A in cases:
-        for e in (eps, 0.5, 1.0 / np.sqrt(max(len(N) - 1, 1)) * 0.9999):
+        for e in (eps, 0.1, 0.3, 0.5, 1.0 / np.sqrt(max(len(N) - 1, 1)) * 0.9999):
             try:
                 src = A.numpy() if inst.get('src') == 'numpy' else A
                 if M:
